@@ -476,6 +476,7 @@ def _run(ctx, quick, broken, exes, driver, tmp, gen_info, only_replay):
         per_group.setdefault(g, []).append(results[i])
     sched_hist = {}
     flaky = []
+    hang_confirmed = []
     for g, rs in per_group.items():
         info = groups[g]
         ref = None
@@ -500,14 +501,20 @@ def _run(ctx, quick, broken, exes, driver, tmp, gen_info, only_replay):
                 dumps.append((g, job, r["dump"]))
             replay = dict(kind="gc-run", program=os.path.basename(info["prog"]), source=open(info["prog"]).read() if info["kind"] != "suite" else None,
                           path=info["prog"] if info["kind"] != "gen" else None, variant=job.variant, schedule=job.sched, schedule_seed=job.seed)
-            if r["rc"] is None:
+            if r["rc"] is None and hang_confirmed:
+                pass    # a hang has already been confirmed by a repeated run in this check run: report further timeouts directly
+            elif r["rc"] is None:
                 # not a wall-clock assertion: a run that hits the timeout while the machine is overloaded is repeated once,
-                # alone, with three times the budget; only a second timeout is reported
+                # alone, with three times the budget; only a second timeout is reported.  (Once one repetition has timed out
+                # too, the tree does hang - e.g. a fiber whose wake-up was lost - and the other timeouts are not repeated:
+                # on such a tree every repetition would cost 30 min.)
                 again = run_job(exes, Job(job.prog, job.variant, job.sched, seed=job.seed, graph=job.graph, crit=job.crit, cwd=job.cwd,
                                           timeout=job.timeout * 3, args=job.args, stack_kb=job.stack_kb), tmp)
                 if again["rc"] is not None:
                     r = again
                     findings, summary, labels, crit = parse_report(r["rep"])
+                else:
+                    hang_confirmed.append(job.key())
             if findings:
                 sig = "graph:" + findings[0].split()[1] + ":" + os.path.basename(info["prog"]) if info["kind"] != "gen" else "graph:" + findings[0].split()[1]
                 ctx.violation(sig, dict(replay, findings=findings[:20]),
